@@ -365,7 +365,11 @@ DropMux(s, e) ==
            the oneshot of an open call is dropped with the call, before the notification 0 *)
         got == {c \in DOMAIN s.calls[e] : s.calls[e][c].k = "open" /\ s.calls[e][c].resp = "some"}
         gotSeq == SetToSeq({s.calls[e][c].h : c \in got})
-        s0 == DropHandles([s EXCEPT !.mux[e] = FALSE, !.calls[e] = <<>>, !.flushTo[e] = s.enq[e]], e, gotSeq)
+        (* the flush obligation of C08 is about a connection that ends BECAUSE the Multiplexor is dropped: a task that has
+           already left its main loop for another reason (an error such as the Acknowledge for a cancelled request, a
+           transport failure) owes nothing more than that cause demands *)
+        s0 == DropHandles([s EXCEPT !.mux[e] = FALSE, !.calls[e] = <<>>,
+                                    !.flushTo[e] = IF s.task[e].ph = "run" THEN s.enq[e] ELSE @], e, gotSeq)
         s1 == IF s.dropsClosed[e] THEN s0 ELSE [s0 EXCEPT !.drops[e] = Append(@, [id |-> 0, h |-> 0])]
         s2 == DropHandles([s1 EXCEPT !.acceptq[e] = <<>>], e, s.acceptq[e])
         s3 == RejectQueuedBinds([s2 EXCEPT !.bindq[e] = <<>>, !.dgq[e] = <<>>], e, s.bindq[e])
